@@ -1,4 +1,4 @@
-from pedal.core.report import MAIN_REPORT
+from pedal.core.report import MAIN_REPORT, Report
 
 
 def make_resolver(func, report=None):
@@ -16,7 +16,11 @@ def make_resolver(func, report=None):
         report = MAIN_REPORT
 
     def resolver_wrapper(*args, **kwargs):
-        report.execute_hooks('pedal.resolvers', 'resolve')
+        # The report being resolved: given by keyword, or as the first positional argument
+        target = kwargs.get('report')
+        if target is None and args and isinstance(args[0], Report):
+            target = args[0]
+        (target or report).execute_hooks('pedal.resolvers', 'resolve')
         return func(*args, **kwargs)
 
     return resolver_wrapper
